@@ -16,10 +16,48 @@
 // The oracle never calls adjust*/update*/medianTimestamp/PoWTarget/NonceFactor to obtain an
 // expected value; Work values are read through Work.String() into math/big.
 //
-// MUTANT TABLE (./run C13 quick, seed 1, against scratch worktrees; see final report)
-// is at the bottom of this comment block and is filled in by hand:
+// One defect was found on the pinned tree (see known_test.go): medianTimestamp saturates
+// time.Duration for an even number (< 11) of previous timestamps whose middle pair is more
+// than ~292 years apart, so ValidateHeader accepts headers older than the true median.
 //
-//   see MUTANTS at the end of this file.
+// SENSITIVITY (./run C13 quick, seed 1, via tools/with_mutant.sh; seconds = whole command incl.
+// worktree + build (~10 s) and up to 20 s of shrinking). file:line of the pinned tree.
+//
+//	 #   mutant                                                             result     s   first failing key
+//	M01  application.go:238 pre-Oak clamp 25/10 -> 35/10                    killed    44   clamp/preoak-window
+//	M02  application.go:227 pre-Oak window 500 -> 250 blocks                killed    39   clamp/preoak
+//	M03  application.go:283 Oak clamp 1004 -> 1008                          killed    26   clamp/oak
+//	M04  application.go:287 Oak upper clamp dropped                         killed    15   clamp/oak
+//	M38  application.go:285 Oak lower clamp dropped                         killed    64   clamp/oak
+//	M33  application.go:280 ASIC reset applied one block late               killed    34   clamp/oak
+//	M05  application.go:312 v2 clamp D/250 -> D/200                         killed    24   clamp/v2
+//	M06  application.go:352 FinalCut ".max(oneWork)" dropped (D may be 0)   killed    10   apply-header/panic (Work.sub underflow on the next header)
+//	M08  application.go:187 v2 total work not incremented                   killed     8   totalwork
+//	M09  application.go:393 zeroing of deprecated fields ">=" -> ">"        killed    10   zeroing
+//	M10  application.go:218 v2 OakTarget not recomputed from OakWork        killed    22   inverse/oak
+//	M11  application.go:357 adjustDifficulty Allow switch "<" -> "<="       killed    13   inverse/child
+//	M13  application.go:183 updateTotalWork Allow switch "<" -> "<="        killed    10   inverse/total
+//	M14  application.go:834 ApplyBlock ignores the ancestor timestamp       killed    55   header-vs-block
+//	M15  application.go:390 PrevTimestamps shifted by two                   killed    22   prev-timestamps
+//	M18  application.go:150 invTarget divides 2^256 instead of 2^256-1      killed    15   apply-header/panic
+//	M31  application.go:89  Work.sub loses the borrow                       killed    83   clamp/finalcut, clamp/v2
+//	M37  application.go:74  Work.add loses the carry                        killed    53   heavier/asymmetry, totalwork
+//	M20  state.go:237 SufficientlyHeavierThan ">" -> ">="                   killed     5   heavier/asymmetry
+//	M22  state.go:256 PoWTarget FinalCut switch "<" -> "<="                 killed    21   powtarget
+//	M23  state.go:301 NonceFactor ASIC switch "<" -> "<="                   killed    25   noncefactor
+//	M24  state.go:201 median parity test inverted                           killed    12   validate-header/panic
+//	M25  state.go:205 even median l+(r-l)/4                                 killed    55   validate-header/timestamp-min-1
+//	M35  state.go:191 numTimestamps bound 11 -> 10                          killed    36   validate-header/timestamp-min-1
+//	M27  validation.go:19 parent check dropped                              killed    35   validate-header/parent-bitflip
+//	M28  validation.go:21 timestamp equal to the median rejected            killed    13   validate-header/base
+//	M29  validation.go:23 nonce-factor check dropped                        killed    19   validate-header/base
+//	M30  validation.go:25 target taken from ChildTarget, not PoWTarget()    killed    14   validate-header/base
+//	M16  application.go:199 OakTime decay 995 -> 990                        survived  55   -
+//	M34  application.go:249 Oak FixHeight switch "<" -> "<="                survived  62   -
+//	M36  application.go:360 FinalCut algorithm switch "<" -> "<="           survived  63   -
+//
+// The three survivors change the estimate *inside* the clamp of their era; the property bounds
+// the change and does not pin the estimator, so they are not violations (stated blind spot).
 package c13
 
 import (
